@@ -78,6 +78,10 @@ def attr_writers(repo, attr):
     return out
 
 
+_DISPATCH_NAMES = {'_do_put', '_do_get', '_trigger_put', '_trigger_get', '_resume', '_check', '_interrupt', '_build_value',
+                   '_populate_value', '_remove_check_callbacks', '_desc'}
+
+
 def root_callers(repo, f, _seen=None, stop=()):
     """a private helper (``_name``, not overriding anything) acts on behalf of the methods that call it through
     ``self._name(...)``: return the qualnames of those root callers (the function itself when it is not a helper,
@@ -89,10 +93,11 @@ def root_callers(repo, f, _seen=None, stop=()):
         return {f.qualname}
     _seen.add(f.node)
     for b in f.cls.mro()[1:]:
-        if f.name in b.methods:
-            return {f.qualname}           # overrides inherited behaviour: judged on its own
+        if f.name in b.methods and f.name in _DISPATCH_NAMES:
+            return {f.qualname}           # overrides a dispatch method of the kernel: judged on its own
+    # (a private hook that a base introduces and a subclass overrides acts for whoever calls the hook)
     callers = set()
-    family = [c for c in repo.all_classes() if f.cls in c.mro()]
+    family = [c for c in repo.all_classes() if f.cls in c.mro() or c in f.cls.mro()]
     for c in family:
         for g in c.methods.values():
             if g.node is f.node:
